@@ -50,6 +50,9 @@ def gen_case(r, depth, kind=None):
         c["types"] = row()
     elif k in ("DFG", "CFG", "Case"):
         c["ins"], c["outs"] = row(), row()
+        if k == "DFG":
+            # the requirements a DFG declares are part of its one signature (outer == inner)
+            c["delta"] = r.sample(["prelude", "arithmetic.int", "verif.test", "x"], r.choice([0, 0, 1, 2]))
     elif k == "DataflowBlock":
         c["ins"], c["rows"], c["other"] = row(), [row(2) for _ in range(r.randint(0, 3))], row(2)
     elif k == "Conditional":
@@ -154,7 +157,7 @@ def build(c):
         op = ops.Output(B.row(c["types"]))
         dataflow(c["types"], [])
     elif k == "DFG":
-        op = ops.DFG(B.row(c["ins"]), B.row(c["outs"]))
+        op = ops.DFG(B.row(c["ins"]), B.row(c["outs"]), list(c.get("delta", [])))
         dataflow(c["ins"], c["outs"])
         sp["inner"] = sp["outer"]
     elif k == "CFG":
@@ -288,6 +291,14 @@ def check_case(ctx, c, stratum="op"):
         got = sig_rows(op.inner_signature())
         if got != sp["inner"]:
             bad("inner-signature", "inner", sp["inner"], got)
+    if k == "DFG":
+        # "a DFG's outer signature equals its body's": as whole function types, requirements included
+        ctx.count("monitor:dfg-outer-is-inner")
+        wo, wi = (x._to_serial_root().model_dump(mode="json") for x in (op.outer_signature(), op.inner_signature()))
+        want = sorted(c.get("delta", []))
+        for nm, w in (("outer", wo), ("inner", wi)):
+            if sorted(w.get("runtime_reqs", [])) != want:
+                bad("dfg-signature-requirements", nm, want, sorted(w.get("runtime_reqs", [])))
     ctx.count("monitor:num_out")
     if op.num_out != sp["num_out"]:
         bad("num_out", "num_out", sp["num_out"], op.num_out)
